@@ -11,12 +11,13 @@ Open Scope Z_scope.
 
 (* ---- invalid arguments: ValueError before anything is executed.
    invalid_args: a count <= 0 (single run, batch with an integer, distribution), a per-circuit list of
-   the wrong length or with an entry <= 0.  Nothing is executed (empty trace); the innermost runner and
-   every tracker file are unchanged; a base-class runner or simulator is unchanged altogether, and so
+   the wrong length or with an entry <= 0.  Nothing is executed (empty trace); the innermost runner, every
+   tracker file and every tracker's pending raw_data are unchanged; a base-class runner or simulator is unchanged altogether, and so
    is a tracker for single and distribution calls (its batch call bumps its own counters first). *)
 Theorem reject_before_execution : forall r k, invalid_args k ->
   st_outcome (step r k) = OErr ValueError /\ st_trace (step r k) = [] /\
   leaf_of (st_runner (step r k)) = leaf_of r /\ files (st_runner (step r k)) = files r /\
+  pendings (st_runner (step r k)) = pendings r /\
   (is_leaf r = true -> st_runner (step r k) = r) /\
   match k with Batch _ _ => True | _ => st_runner (step r k) = r end.
 Proof. exact reject_first. Qed.
@@ -46,9 +47,9 @@ Proof. exact reject_unbound_step. Qed.
 Print Assumptions reject_unbound_symbols.
 
 Example invalid_premises_met :
-  invalid_args (Batch [mkC 2 [0; 4] false; mkC 0 [] false] (Many [3; 0])) /\
+  invalid_args (Batch [mkC 2 [0; 4] false true; mkC 0 [] false true] (Many [3; 0])) /\
   invalid_args (Batch [] (One (-2))) /\
-  step (RSim (fun k => k =? 0) 5 7) (Batch [mkC 2 [0; 4] false; mkC 0 [] false] (Many [3; 0]))
+  step (RSim (fun k => k =? 0) 5 7) (Batch [mkC 2 [0; 4] false true; mkC 0 [] false true] (Many [3; 0]))
   = (RSim (fun k => k =? 0) 5 7, OErr ValueError, []).
 Proof. split; [right; right; constructor; cbn; lia|]. split; [cbn; lia|reflexivity]. Qed.
 
@@ -97,7 +98,7 @@ Print Assumptions simulator_work.
 
 Example history_premises_met :
   let r := RSim (fun k => k <? 4) 0 0 in
-  let ks := [Run (mkC 2 [0; 1; 7; 7; 2] false) 3; Run (mkC 2 [0] false) 0; Batch [mkC 0 [] false; mkC 1 [7] false] (Many [2; 5])] in
+  let ks := [Run (mkC 2 [0; 1; 7; 7; 2] false false) 3; Run (mkC 2 [0] false true) 0; Batch [mkC 0 [] false true; mkC 1 [7] false false] (Many [2; 5])] in
   counters (final r ks) = (2, 4) /\ circuits_in (history_trace r ks) = 2 /\ jobs_in (history_trace r ks) = 4.
 Proof. vm_compute. repeat split. Qed.
 
@@ -117,7 +118,7 @@ Proof. exact run_results_shape. Qed.
 Print Assumptions single_result_enough.
 
 (* the shape theorems are not vacuous: every valid request succeeds (runnable: the innermost runner is a plain
-   base-class runner, or the circuit has no unbound symbols) *)
+   base-class runner or the circuit has no unbound symbols, and under a tracker the circuit has gate operations only) *)
 Theorem valid_batch_request_succeeds : forall r cs s, ~ bad_spec (List.length cs) s -> Forall (runnable r) cs ->
   exists r' ms tr, step r (Batch cs s) = (r', OBatch ms, tr).
 Proof. exact valid_batch_succeeds. Qed.
@@ -157,29 +158,54 @@ Proof. exact base_batch. Qed.
 Print Assumptions base_batch_in_order.
 
 Example shape_premises_met :
-  honest (RTrack 0 0 [] (RBase 2 0 0)) /\
-  step (RTrack 0 0 [] (RBase 2 0 0)) (Batch [mkC 3 [0] false; mkC 0 [] false] (Many [4; 1]))
-  = (RTrack 2 1 [RecM (mkC 3 [0] false) (6, 3); RecM (mkC 0 [] false) (3, 0)] (RBase 2 2 2),
-     OBatch [(6, 3); (3, 0)], [ERun (mkC 3 [0] false) 4; ERun (mkC 0 [] false) 1]).
+  honest (RTrack 0 0 [] [] (RBase 2 0 0)) /\
+  step (RTrack 0 0 [] [] (RBase 2 0 0)) (Batch [mkC 3 [0] false true; mkC 0 [] false true] (Many [4; 1]))
+  = (RTrack 2 1 [RecM (mkC 3 [0] false true) (6, 3); RecM (mkC 0 [] false true) (3, 0)] [] (RBase 2 2 2),
+     OBatch [(6, 3); (3, 0)], [ERun (mkC 3 [0] false true) 4; ERun (mkC 0 [] false true) 1]).
 Proof. split; [cbn; lia|reflexivity]. Qed.
 
-(* ---- the tracking wrapper: for single, batch and distribution calls it returns exactly the outcome of the
-   wrapped runner's call (same trace, wrapped runner advanced exactly as by its own call) and its file becomes
-   [record_for]: one record per returned result naming the circuit, the shot number and key length of that
-   result (for a distribution: circuit and requested count); unchanged when the call raised.  Its own counters:
-   +1/+1 after a successful single run, +len/+1 BEFORE delegating a batch (even a rejected one), unchanged for
-   distributions. *)
-Theorem tracker_returns_inner_result : forall nc nj file inner k, tracked_call k ->
-  step (RTrack nc nj file inner) k
+(* ---- the tracking wrapper: for single, batch and distribution calls on circuits it can serialise (gate
+   operations only) it returns exactly the outcome of the wrapped runner's call (same trace, wrapped runner advanced
+   exactly as by its own call); after a success its file is [file_after]: whatever was pending in raw_data, then one
+   record per returned result naming the circuit, the shot number and key length of that result (for a distribution:
+   circuit and requested count), and raw_data is empty; when the call raised, file and raw_data are unchanged.  Its own
+   counters: +1/+1 after a successful single run, +len/+1 BEFORE delegating a batch (even a rejected one), unchanged
+   for distributions. *)
+Theorem tracker_returns_inner_result : forall nc nj file pend inner k, tracked_call k -> serialisable k ->
+  step (RTrack nc nj file pend inner) k
   = (RTrack (nc + fst (own_count k (st_outcome (step inner k)))) (nj + snd (own_count k (st_outcome (step inner k))))
-            (record_for k (st_outcome (step inner k)) file) (st_runner (step inner k)),
+            (file_after k (st_outcome (step inner k)) file pend) (pending_after k (st_outcome (step inner k)) pend)
+            (st_runner (step inner k)),
      st_outcome (step inner k), st_trace (step inner k)).
 Proof. exact tracker_passthrough. Qed.
 Print Assumptions tracker_returns_inner_result.
 
-Theorem tracker_batch_records_match : forall nc nj file inner cs s r' ms tr,
-  step (RTrack nc nj file inner) (Batch cs s) = (r', OBatch ms, tr) ->
+(* every successful tracked batch (no hypothesis on the circuits: success implies they were serialisable) *)
+Theorem tracker_batch_records_match : forall nc nj file pend inner cs s r' ms tr,
+  step (RTrack nc nj file pend inner) (Batch cs s) = (r', OBatch ms, tr) ->
   st_outcome (step inner (Batch cs s)) = OBatch ms /\
-  files r' = map (fun cm => RecM (fst cm) (snd cm)) (combine cs ms) :: files (st_runner (step inner (Batch cs s))).
+  files r' = (pend ++ map (fun cm => RecM (fst cm) (snd cm)) (combine cs ms)) :: files (st_runner (step inner (Batch cs s))) /\
+  pendings r' = [] :: pendings (st_runner (step inner (Batch cs s))).
 Proof. exact tracker_batch_records. Qed.
 Print Assumptions tracker_batch_records_match.
+
+(* full statement that does NOT hold: tracker_returns_inner_result without [serialisable k].  Refuted by the
+   faithful model (finding F28): over a circuit containing a non-gate operation (MultiPhaseOperation) the wrapped
+   runner executes and returns measurements, then the tracker raises AttributeError (to_dict cannot serialise it) *)
+Theorem tracker_nongate_refuted :
+  exists nc nj file pend inner k m, tracked_call k /\
+    st_outcome (step inner k) = OMeas m /\ st_trace (step (RTrack nc nj file pend inner) k) <> [] /\
+    n_jobs (st_runner (step inner k)) <> n_jobs inner /\
+    st_outcome (step (RTrack nc nj file pend inner) k) = OErr AttrError.
+Proof. exact tracker_nongate_counterexample. Qed.
+Print Assumptions tracker_nongate_refuted.
+
+(* F28, second half: the records appended before the failing circuit of a batch stay in raw_data and appear in the
+   file written by the next successful call - two different records for one returned result *)
+Theorem tracker_stale_records_refuted :
+  exists r k1 k2 m rec1 rec2,
+    st_outcome (step r k1) = OErr AttrError /\
+    st_outcome (step (st_runner (step r k1)) k2) = OMeas m /\
+    files (st_runner (step (st_runner (step r k1)) k2)) = [[rec1; rec2]] /\ rec1 <> rec2.
+Proof. exact tracker_stale_counterexample. Qed.
+Print Assumptions tracker_stale_records_refuted.
